@@ -151,6 +151,40 @@ pub fn scenarios(tier: &str) -> Vec<Scenario> {
     // (e) thousands of pipelined requests against a handler that never completes
     add("pipeline:5000-handler-never-completes".into(), (0..5000).map(|i| RequestSpec::new("GET", i).header("x-pad", "0123456789012345678901234567890123456789012345678901234567890123456789012345678901234567890123456789")).collect(),
         (0..5000).map(|i| if i == 0 { ok().pend(1) } else { ok() }).collect(), &|s| s.env.hold_gates = true);
+    // rounds of pipelined requests, each round ending in a request whose one-byte body arrives only
+    // with the next round, against a handler that never completes: the cap on queued requests
+    // must hold in every round
+    {
+        let rounds = 40usize;
+        let per = 250usize;
+        let mut reqs = vec![];
+        for r in 0..rounds {
+            for i in 0..per {
+                let k = r * per + i;
+                if i + 1 == per {
+                    reqs.push(RequestSpec::new("POST", k).cl(b"z").header("x-pad", "0123456789012345678901234567890123456789012345678901234567890123456789012345678901234567890123456789"));
+                } else {
+                    reqs.push(RequestSpec::new("GET", k).header("x-pad", "0123456789012345678901234567890123456789012345678901234567890123456789012345678901234567890123456789"));
+                }
+            }
+        }
+        let n = reqs.len();
+        add("pipeline:rounds-ending-in-an-incomplete-body".into(), reqs, (0..n).map(|i| if i == 0 { ok().pend(1) } else { ok() }).collect(), &|s| {
+            s.env.hold_gates = true;
+            let st = s.stream();
+            let mut segs = vec![];
+            let mut from = 0;
+            for r in 0..rounds {
+                // up to (not including) the body byte of the round's last request
+                let last = (r + 1) * per - 1;
+                let to = st.spans[last].2 - 1;
+                segs.push(Segment { when: if r == 0 { When::Start } else { When::Quiescent }, from, to });
+                from = to;
+            }
+            segs.push(Segment { when: When::Quiescent, from, to: st.bytes.len() });
+            s.segments = segs;
+        });
+    }
     add("pipeline:5000-slow-socket".into(), (0..5000).map(|i| RequestSpec::new("GET", i)).collect(), (0..5000).map(|_| ok()).collect(), &|s| s.env.stall_writes_after = Some(0));
     // (c) huge responses against sockets that accept nothing / little, for every write-buffer size
     let bodies: Vec<(&str, Box<dyn Fn() -> BodySpec>)> = vec![
